@@ -188,7 +188,33 @@ std::string ProgCoro() {
   return s;
 }
 
+// best-effort single weak CAS attempts by several threads: the pattern of spurious failures is part of the result
+std::string ProgCas() {
+  yaclib_std::atomic<int> cell{0};
+  std::vector<std::string> outs(3);
+  std::vector<yaclib_std::thread> ts;
+  for (int t = 0; t != 3; ++t) {
+    ts.emplace_back([&, t] {
+      for (int j = 0; j != 8; ++j) {
+        int expected = cell.load(std::memory_order_relaxed);
+        const bool ok = cell.compare_exchange_weak(expected, expected + 1, std::memory_order_acq_rel, std::memory_order_relaxed);
+        outs[static_cast<std::size_t>(t)] += ok ? "1" : "0";
+      }
+    });
+  }
+  for (auto& t : ts) {
+    t.join();
+  }
+  // a last, unretried attempt right before the program ends
+  int expected = cell.load(std::memory_order_relaxed);
+  const bool last = cell.compare_exchange_weak(expected, expected + 1, std::memory_order_acq_rel, std::memory_order_relaxed);
+  return "cell=" + std::to_string(cell.load()) + " " + outs[0] + "." + outs[1] + "." + outs[2] + " last=" + (last ? "1" : "0");
+}
+
 std::string RunProg(const std::string& name) {
+  if (name.rfind("cas", 0) == 0) {
+    return ProgCas();
+  }
   if (name == "pool") {
     return ProgPool();
   }
